@@ -171,6 +171,92 @@ impl<'a> Ref<'a> {
     }
 }
 
+/// Offline generator (deterministic): sparse positions in which a mate score already appears at
+/// a shallow depth but a strictly better (shorter) mate exists at a larger depth - the case in
+/// which "stop deepening once a mate is seen" changes the fixed-depth result. Uses only the
+/// reference search; the list is re-judged against the engine like every other target.
+pub fn generate_deepening(count: usize, seed: u64) -> Vec<(String, u8)> {
+    use std::sync::atomic::{AtomicU64, Ordering};
+    let found: std::sync::Mutex<Vec<(u64, String, u8)>> = std::sync::Mutex::new(vec![]);
+    let next = AtomicU64::new(0);
+    let limit = 60_000u64;
+    std::thread::scope(|sc| {
+        for _ in 0..super::explore::threads() {
+            sc.spawn(|| loop {
+                let k = next.fetch_add(1, Ordering::Relaxed);
+                if k >= limit || found.lock().unwrap().len() >= count * 2 {
+                    break;
+                }
+                let mut x = seed ^ k.wrapping_mul(0x9E3779B97F4A7C15) ^ 0x2545F4914F6CDD1D;
+                let mut rnd = move |m: u64| -> u64 {
+                    x ^= x << 13;
+                    x ^= x >> 7;
+                    x ^= x << 17;
+                    (x >> 11) % m
+                };
+                let _ = rnd(3);
+                let mut p = Pos::empty();
+                let wk = rnd(64) as usize;
+                let mut bk = rnd(64) as usize;
+                while bk == wk || (((bk % 8) as i32 - (wk % 8) as i32).abs() <= 1 && ((bk / 8) as i32 - (wk / 8) as i32).abs() <= 1) {
+                    bk = rnd(64) as usize;
+                }
+                p.sq[wk] = super::oracle::K;
+                p.sq[bk] = -super::oracle::K;
+                // attacker: queen + one or two more pieces; defender: zero to two pieces/pawns
+                let strong: i8 = if rnd(2) == 0 { 1 } else { -1 };
+                let mut put = |p: &mut Pos, piece: i8, rnd: &mut dyn FnMut(u64) -> u64| {
+                    for _ in 0..20 {
+                        let sq = rnd(64) as usize;
+                        if p.sq[sq] == 0 && !(piece.abs() == 1 && (sq < 8 || sq >= 56)) {
+                            p.sq[sq] = piece;
+                            return;
+                        }
+                    }
+                };
+                put(&mut p, strong * 5, &mut rnd);
+                for _ in 0..(1 + rnd(2)) {
+                    let kind = [1i8, 2, 3, 4, 5][rnd(5) as usize];
+                    put(&mut p, strong * kind, &mut rnd);
+                }
+                for _ in 0..rnd(3) {
+                    let kind = [1i8, 1, 2, 3, 5][rnd(5) as usize];
+                    put(&mut p, -strong * kind, &mut rnd);
+                }
+                p.white = strong > 0;
+                if p.in_check(!p.white) || p.legal_moves().is_empty() {
+                    continue;
+                }
+                let hist: Vec<Ident> = vec![];
+                let value = |d: u32| -> Option<i32> {
+                    let mut r = Ref::new(&hist, 3_000_000);
+                    let v = r.root_values(&p, d, true);
+                    if r.over {
+                        None
+                    } else {
+                        v.iter().map(|(_, x)| *x).max()
+                    }
+                };
+                let Some(v3) = value(3) else { continue };
+                if v3 < 32_000 {
+                    continue;
+                }
+                for d in [4u32, 5] {
+                    if let Some(vd) = value(d) {
+                        if vd > v3 {
+                            found.lock().unwrap().push((k, p.fen(), d as u8));
+                            break;
+                        }
+                    }
+                }
+            });
+        }
+    });
+    let mut v = found.into_inner().unwrap();
+    v.sort();
+    v.into_iter().take(count).map(|(_, f, d)| (f, d)).collect()
+}
+
 pub struct Verdict {
     pub judged_by: &'static str,
     pub complaint: Option<String>,
@@ -312,6 +398,13 @@ pub fn targets(tier: &str) -> Vec<Target> {
             if let Some((_, fen)) = line.split_once('\t') {
                 v.push(Target { name: format!("family {fen}"), fen: fen.to_string(), history: vec![], max_depth: maxd });
             }
+        }
+    }
+    // positions where a mate score appears early but a shorter mate exists deeper (see generate_deepening)
+    for line in include_str!("deepening_family.txt").lines() {
+        if let Some((d, fen)) = line.split_once('\t') {
+            let d: u8 = d.parse().unwrap_or(4);
+            v.push(Target { name: format!("deepening {fen}"), fen: fen.to_string(), history: vec![], max_depth: d });
         }
     }
     // every explorer seed (the rare-feature positions, the bench positions, the long games)
